@@ -54,6 +54,18 @@ def gen_cases(rng, tier):
         shapes = S.tmpl_qualified(rng, nodes, lits, deep=deep, easy=True)
         m = rng.choice([max(1, deep), deep + 1, deep + 2, deep + 3, deep + 4, rng.randint(1, 8)])
         cases.append({"shapes": shapes, "sg": S.shapes_to_rdf(shapes), "data": data, "opts": {"max_validation_depth": m}, "kind": "sibling-chain"})
+    for _ in range(n_chain // 2):
+        # wide data: every node has several values for every predicate, so each link is evaluated for many sibling
+        # value nodes; the depth of a chain must not depend on how many of them there are
+        data, nodes, lits = S.gen_typed_data(rng, n_iri=rng.randint(3, 5), n_bn=0, n_lit=1, n_triples=2)
+        for x in nodes:
+            for p in S.PREDS:
+                for o in rng.sample(nodes + lits, min(len(nodes + lits), rng.randint(2, 4))):
+                    data.add((x, URIRef(p), o))
+        m = rng.randint(2, 6)
+        n = rng.choice([max(1, m - 2), max(1, m - 1), max(1, m - 1), m])
+        shapes = chain_shapes(rng, n, nodes, lits)
+        cases.append({"shapes": shapes, "sg": S.shapes_to_rdf(shapes), "data": data, "opts": {"max_validation_depth": m}, "kind": "wide-chain"})
     for _ in range(n_rec):
         data, nodes, lits = S.gen_typed_data(rng, n_iri=rng.randint(2, 3), n_bn=0, n_lit=1, n_triples=rng.randint(3, 8))
         shapes = S.gen_shapes(rng, nodes, lits, n_shapes=rng.randint(1, 4), recursive=True, p_deact=0.05, sev=False)
@@ -89,7 +101,7 @@ def main(tier, seed, replay=None):
     try:
         return EC.standard_main(
             PROP, ["Props/C19.v"], tier, seed, cases,
-            rule="case = (a) chain of n shapes through mixed node/property/not/or/and/xone/qualified links with max_validation_depth m in 1..30 and n around m and up to 2m; (b) random shapes graphs with arbitrary cyclic references (self-loops, mutual recursion) over cyclic data with m in 1..6; every run under a 30 s wall-clock limit; outcome (report or 'too deep' failure) compared with the model, which contains the depth test and recursion_triggers",
+            rule="case = (a) chain of n shapes through mixed node/property/not/or/and/xone/qualified links with max_validation_depth m in 1..30 and n around m and up to 2m; (a') the same chains with m in 2..6 over wide data (2-4 values per node and predicate); (b) random shapes graphs with arbitrary cyclic references (self-loops, mutual recursion) over cyclic data with m in 1..6; every run under a 30 s wall-clock limit; outcome (report or 'too deep' failure) compared with the model, which contains the depth test and recursion_triggers",
             what="outcome differs from the model of depth limiting / recursion back-out (Props.C19)",
         )
     finally:
